@@ -438,7 +438,7 @@ impl C08 {
                     out.push_str(rng.pick_str(&["#) ", "#) ", "#) ", "~) ", ""]));
                 }
                 7..=9 if depth < 3 => {
-                    out.push_str(&format!(": {} ", rng.pick_str(NAMES)));
+                    out.push_str(&format!(": {} {}", rng.pick_str(NAMES), if rng.chance(1, 5) { "immediate " } else { "" }));
                     Self::defsoup_items(rng, depth + 1, out);
                     out.push_str(rng.pick_str(&["; ", "; ", "; ", "; immediate ", ""]));
                 }
